@@ -77,8 +77,11 @@ type Runner struct {
 	deferred     []rec
 	// Old1 / Old2: private copies of every transaction a submission got accepted, as submitted (with
 	// the basis its proofs belong to): material for submitting the same objects again much later
-	Old1          []OldTx
-	Old2          []OldTx
+	Old1 []OldTx
+	Old2 []OldTx
+	// Ops: every block submission made on the manager, in order (tree indices; blocks mined or built
+	// during the history are tree nodes by then): the history as the store saw it
+	Ops           []mgrsim.Op
 	window        []windowRead // what the listeners read from inside notifications since the last observation
 	lastRev       *chaingen.Node
 	minedFromPool map[*chaingen.Node]bool           // blocks mined from the pool by coreutils.MineBlock and adopted
@@ -217,14 +220,39 @@ func (r *Runner) AbsBlock(n *chaingen.Node) (v1, v2 []ATx) {
 	return
 }
 
-// Pool reads both lists; a panic is reported.
+// Pool reads both lists; a panic is reported. Every reading makes the manager revalidate its pool
+// against the current tip: when calls are still waiting for their observation (DeferNext / Quiet
+// steps, whose trace entries say "no query here"), this reading is recorded as a query of its own, so
+// that the model revalidates at the same point of the history as the manager.
 func (r *Runner) Pool() (v1 []types.Transaction, v2 []types.V2Transaction) {
+	v1, v2 = r.readPool()
+	if len(r.deferred) > 0 && !r.Quiet && !r.DeferNext {
+		rc := rec{Op: "query", Res: Res{Kind: "none"}}
+		r.record(&rc, v1, v2)
+	}
+	return
+}
+
+func (r *Runner) readPool() (v1 []types.Transaction, v2 []types.V2Transaction) {
 	defer func() {
 		if p := recover(); p != nil {
 			r.Fail("pool-query-panic", fmt.Sprint("PoolTransactions/V2PoolTransactions panicked: ", p))
 		}
 	}()
 	return r.CM.PoolTransactions(), r.CM.V2PoolTransactions()
+}
+
+// record appends the calls that waited for an observation and then rc with the lists just read.
+func (r *Runner) record(rc *rec, v1 []types.Transaction, v2 []types.V2Transaction) {
+	for _, t := range v1 {
+		rc.ObsV1 = append(rc.ObsV1, t.ID())
+	}
+	for _, t := range v2 {
+		rc.ObsV2 = append(rc.ObsV2, r.W.AbsV2(t, r.meta(t.ID(), Meta{POK: true})))
+	}
+	r.recs = append(r.recs, r.deferred...)
+	r.deferred = nil
+	r.recs = append(r.recs, *rc)
 }
 
 func (r *Runner) observe(rc *rec) {
@@ -238,17 +266,9 @@ func (r *Runner) observe(rc *rec) {
 		r.window = nil
 		return
 	}
-	v1, v2 := r.Pool()
+	v1, v2 := r.readPool()
 	r.checkWindow(v1, v2)
-	for _, t := range v1 {
-		rc.ObsV1 = append(rc.ObsV1, t.ID())
-	}
-	for _, t := range v2 {
-		rc.ObsV2 = append(rc.ObsV2, r.W.AbsV2(t, r.meta(t.ID(), Meta{POK: true})))
-	}
-	r.recs = append(r.recs, r.deferred...)
-	r.deferred = nil
-	r.recs = append(r.recs, *rc)
+	r.record(rc, v1, v2)
 }
 
 // AssembleBlock builds a block on node n from the given transactions (all of them must fit).
@@ -307,6 +327,7 @@ func (r *Runner) Chain(op mgrsim.Op) mgrsim.Obs {
 			r.pendUpd = append(r.pendUpd, updRec{n, false})
 		}
 	}
+	r.Ops = append(r.Ops, op)
 	o := r.Sim.Do(op)
 	if o.Panic {
 		r.Fail("manager-panic", fmt.Sprintf("%v panicked: %s", op, o.ErrText))
@@ -397,6 +418,7 @@ func (r *Runner) Adopt(b types.Block) bool {
 	}
 	n := r.W.T.AddBlock(b, "")
 	if n != nil {
+		r.Ops = append(r.Ops, mgrsim.Op{Kind: "add", Nodes: []int{n.Idx}})
 		r.minedFromPool[n] = true
 		r.elemNode[n] = r.elemNode[before]
 		r.pendUpd = append(r.pendUpd, updRec{n, false})
